@@ -209,7 +209,7 @@ Section Model.
   (* everything up to and including `cls._deps.pop(widget, [])` *)
   Definition cleanup_entry (c : cache) (r : cid) : cache :=
     match alookup (refs c) r with
-    | None => c                    (* del cls._refs[ref] raises KeyError, which a weakref callback cannot propagate *)
+    | None => c                    (* w = cls._refs.pop(ref, None); if not w: return  (an invalidation removed it already) *)
     | Some (w, k) =>
       let refs' := aremove (refs c) r in
       match alookup (widgets c) w with
